@@ -142,4 +142,18 @@ theorem nearBox_surf_of_deg (i : ℕ) (hi : i ≤ 1) (lat lon : ℚ) (q : Pos) (
   · rw [rlon_eq_recv]; exact recv19_err _ _ (dlon_pos i _)
   · linarith
 
+/-- **pair box from degrees**: the stored report is the format-`i'` report (`i' = 1 − i`) of a position on
+    the globe within 12/295 ° of latitude and, when the bands agree, `144/(NL(NL−1))` ° of longitude (on a
+    suitable turn) of `(lat, lon)` -/
+theorem pairBox_of_deg (i i' : ℕ) (hi' : i' = 1 - i) (lat lon lat' lon' : ℚ) (hr : -90 ≤ lat' ∧ lat' ≤ 90)
+    (h1 : |lat' - lat| ≤ 12 / 295)
+    (h2 : NL (rlat 17 i' lat') = NL (rlat 17 i lat) → ∃ k : ℤ,
+      (NL (rlat 17 i lat) : ℚ) * ((NL (rlat 17 i lat) : ℚ) - 1) * |lon' + 360 * k - lon| ≤ 144) :
+    PairBox i (report 17 i' lat' lon') lat lon := by
+  subst hi'
+  by_cases hn : NL (rlat 17 (1 - i) lat') = NL (rlat 17 i lat)
+  · obtain ⟨k, hk⟩ := h2 hn
+    exact ⟨lat', lon' + 360 * k, hr, (report_lon_shift 17 (1 - i) lat' lon' k).symm, h1, fun _ => hk⟩
+  · exact ⟨lat', lon', hr, rfl, h1, fun h => absurd h hn⟩
+
 end Rs1090.Proofs.CprState
